@@ -836,6 +836,7 @@ func (self *TextCommandConverter) ConvertTextExpireCommand(textProtocol ITextPro
 		lockCommand.ExpriedFlag = EXPRIED_FLAG_UNLIMITED_EXPRIED_TIME
 	}
 	lockCommand.ExpriedFlag |= EXPRIED_FLAG_ZEOR_AOF_TIME | EXPRIED_FLAG_UPDATE_NO_RESET_EXPRIED_CHECKED_COUNT
+	lockCommand.TimeoutFlag |= TIMEOUT_FLAG_LOCK_WAIT_WHEN_UNLOCK
 	return lockCommand, self.WriteTextExpireCommandResult, nil
 }
 
